@@ -570,6 +570,9 @@ class ExcelCompiler:
                     else:
                         # trim this cell, now we will need only its value
                         needed_cells.add(child_address)
+                        if child_cell.formula and child_cell.value is None:
+                            # which it does not have if never evaluated
+                            self.evaluate(child_address)
                         child_cell.formula = None
                         self.log.debug(f'Trimming {child_address}')
 
